@@ -64,7 +64,7 @@ def cases(draw, tier="quick"):
                 ps.append(["vis", draw(st.sampled_from(cands))])
         if f in E.STRUCT_FEATURES and S.chance(draw, 0.45):
             fn_names = [p_[1] for ff in feats for p_ in ff["params"] if p_[0] == "name"] + [p_[1] for p_ in ps if p_[0] == "name"]
-            sn = draw(st.sampled_from(["My%sStruct" % f.capitalize(), "It_%s" % f, "Σ%s" % f.capitalize()] + fn_names[-2:] + [f, "MIN"]))
+            sn = draw(st.sampled_from(["My%sStruct" % f.capitalize(), "It_%s" % f, "Σ%s" % f.capitalize()] + fn_names[-2:] + ["MIN"]))
             # a module-level struct may share its name with an associated fn / const (different namespaces)
             if sn not in used or sn in fn_names:
                 used.add(sn)
@@ -351,27 +351,30 @@ def run_case(case):
         raise build.InfraError("expansion failed: " + J.short_err(ex.stderr))
     pub, impls, priv = scan_surface(build.expanded_text(ex), ident)
     exp_items, exp_impls = expected_surface(spec, cfg)
+    # a struct and an associated fn / const may share a name (different namespaces): key by (class, name)
+    klass = lambda kind: "struct" if kind == "struct" else "assoc"
     vis_of = {}
     for kind, fn, name, rank, _t in items:
         f = E.feat(cfg, fn)
         v = E.param(f, "vis", None)
-        vis_of[name] = spec["vis"] if v is None else v
+        vis_of[(kind, name)] = spec["vis"] if v is None else v
     for vis, kind, name in pub:
         if kind in ("mod",):
             continue
+        want = vis_of.get((klass(kind), name))
         if name not in exp_items:
             out.violate("the derive adds a non-private item the user did not request (helper leaked / extra surface)",
                         item="%s %s %s" % (vis, kind, name), config=J.cfg_text(cfg), enum_vis=spec["vis"])
-        elif vis_of.get(name) is not None and vis.replace(" ", "") != vis_of[name].replace(" ", "") and not (vis == "pub(self)" and vis_of[name] == "pub(self)"):
+        elif want is not None and vis.replace(" ", "") != want.replace(" ", ""):
             out.violate("an item was generated with a visibility other than the requested one",
-                        item="%s %s %s" % (vis, kind, name), requested=vis_of[name], config=J.cfg_text(cfg))
+                        item="%s %s %s" % (vis, kind, name), requested=want, config=J.cfg_text(cfg))
     found_names = {name for _v, _k, name in pub} | {name for _v, _k, name in priv}
     for name in exp_items:
         if name not in found_names:
             out.violate("a requested item is missing from the expansion", item=name, config=J.cfg_text(cfg))
-    for name in exp_items:
+    for (kl, name), want in vis_of.items():
         # requested private visibility ("" on a non-private enum) must really be private
-        if vis_of.get(name) == "" and any(n == name for _v, _k, n in pub):
+        if want == "" and any(n == name and klass(k_) == kl for _v, k_, n in pub):
             out.violate("an item requested with vis = \"\" was generated non-private", item=name)
     norm = lambda s: s.replace(" ", "")
     exp_norm = {(norm(a), norm(b)) for a, b in exp_impls}
